@@ -682,6 +682,10 @@ func (c *Ctx) Bin(op Op, a, b *Term) *Term {
 		if b.IsConst() && b.Val == 1 {
 			return a
 		}
+	case OpURem, OpSRem:
+		if b.IsConst() && b.Val == 1 {
+			return c.BV(0, w)
+		}
 	}
 	return c.mk(op, w, []*Term{a, b}, 0, "")
 }
